@@ -258,11 +258,20 @@ func genC12(g *Gen, tier string) *Case {
 	dims := make([]cmsCfg, k)
 	for i := 0; i < k; i++ {
 		dims[i] = d
-		if g.Chance(0.12) {
-			if g.Chance(0.5) {
+		if g.Chance(0.16) {
+			switch g.Pick(0, 1, 2, 2) {
+			case 0:
 				dims[i].rows = d.rows + 1
-			} else {
+			case 1:
 				dims[i].cols = d.cols + 1 + g.Intn(3)
+			default: // another shape of the same area (2x6 against 3x4, 1x8 against 2x4)
+				if d.cols%2 == 0 && g.Chance(0.5) {
+					dims[i].rows, dims[i].cols = d.rows*2, d.cols/2
+				} else if d.rows%2 == 0 {
+					dims[i].rows, dims[i].cols = d.rows/2, d.cols*2
+				} else {
+					dims[i].rows = d.rows + 1
+				}
 			}
 		}
 		ops = append(ops, TL(TNi(cmsNew), TNi(i), TNi(dims[i].rows), TNi(dims[i].cols)))
@@ -274,6 +283,19 @@ func genC12(g *Gen, tier string) *Case {
 	n := 6 + g.Intn(40)
 	if tier == "thorough" {
 		n = 6 + g.Intn(150)
+	}
+	if !g.Wide && g.Chance(0.04) && dims[0] == d && dims[1] == d {
+		// in-memory sketches only: merges that feed each other grow the cells like Fibonacci numbers,
+		// past 2^64 within some twenty rounds; cells wrap there, under Merge exactly as under Update
+		x := pool[g.Intn(len(pool))]
+		ops = append(ops, cmsUpdateOp(g, 0, x, g.cmsCount()), cmsUpdateOp(g, 1, x, uint64(1)<<40))
+		for t := 0; t < 16+g.Intn(8); t++ {
+			ops = append(ops, TL(TNi(cmsMerge), TNi(0), TNi(1)), TL(TNi(cmsMerge), TNi(1), TNi(0)))
+			if t >= 12 {
+				ops = append(ops, cmsCountOp(g, 0, x), cmsCountOp(g, 1, x))
+			}
+		}
+		return &Case{Ops: ops}
 	}
 	if g.Chance(0.5) {
 		// structured scenario: disjoint streams, then merge everything into 0 in random order
@@ -294,6 +316,12 @@ func genC12(g *Gen, tier string) *Case {
 		order := g.R.Perm(k - 1)
 		for _, o := range order {
 			ops = append(ops, TL(TNi(cmsMerge), TNi(0), TNi(o+1)))
+			if dims[o+1] != dims[0] { // a rejected merge is rejected in both directions and changes neither
+				ops = append(ops, TL(TNi(cmsMerge), TNi(o+1), TNi(0)))
+				for _, x := range pool[:1+len(pool)/2] {
+					ops = append(ops, cmsCountOp(g, o+1, x))
+				}
+			}
 		}
 		for _, x := range pool {
 			ops = append(ops, cmsCountOp(g, 0, x), cmsCountOp(g, ref, x))
